@@ -247,7 +247,7 @@ addresses per family. non-trivial = >= 2 addresses with >= 2 different behaviour
     }
 
     fn cases_per_worker(tier: Tier) -> u32 {
-        tier.pick(10, 150)
+        tier.pick(10, 500)
     }
 
     fn max_shrink_iters() -> u32 {
